@@ -215,9 +215,20 @@ Definition dz_with (field : Z) (a : dtz) (x : Z) : R (option dtz) :=
   if field =? 0 then
     map_local a (fun l => if Date.d_year (nd_date l) =? x then Val (Some l) else ndt_with 0 l x)
   else map_local a (fun l => ndt_with field l x).
+(** [MappedLocalTime::and_then] (pub(crate)) *)
+Definition mlt_and_then {A C} (m : mlt A) (f : A -> option C) : mlt C :=
+  match m with
+  | MNone => MNone
+  | MSingle v => match f v with Some n => MSingle n | None => MNone end
+  | MAmbiguous a b => match f a, f b with Some x, Some y => MAmbiguous x y | _, _ => MNone end
+  end.
+(** [with_time] as repaired by fixes/C04-with-time-range.diff: the same MIN_UTC..=MAX_UTC filter as
+    [map_local] (the unrepaired code returned the unfiltered [from_local_datetime] result, which can
+    lie outside the range when the local date is BEFORE_MIN/AFTER_MAX). *)
 Definition dz_with_time (a : dtz) (t : Time.ntime) : R (mlt dtz) :=
   let* l := overflowing_naive_local a in
-  from_local_datetime (dz_off a) (mk_ndt (nd_date l) t).
+  let* r := from_local_datetime (dz_off a) (mk_ndt (nd_date l) t) in
+  Val (mlt_and_then r (fun x => if in_utc_range x then Some x else None)).
 
 (** [with_ymd_and_hms] for a fixed offset *)
 Definition with_ymd_and_hms (off year month day hour min sec : Z) : R (mlt dtz) :=
